@@ -2,9 +2,9 @@ package main
 
 import (
 	"bytes"
-	"hash/fnv"
 	"context"
 	"fmt"
+	"hash/fnv"
 	"os"
 	"os/exec"
 	"path/filepath"
